@@ -26,6 +26,8 @@ class Injector:
         self.where = None
         self.by_function = {}
         self.installed = False
+        self.writer_lines = []      # during count(): indices of lines inside functions that store to shared state
+        self._writer = {}
 
     def install(self):
         if self.installed:
@@ -46,6 +48,13 @@ class Injector:
             if not me.armed:
                 return None
             me.n += 1
+            if me.target == -1:
+                w = me._writer.get(code)
+                if w is None:
+                    from .sched import _writes_state
+                    w = me._writer[code] = _writes_state(code)
+                if w:
+                    me.writer_lines.append(me.n)
             if me.n == me.target:
                 me.where = (os.path.basename(fn) if not fn.startswith("<ovld:") else "<ovld:generated>", code.co_name, line)
                 me.armed = False
@@ -59,6 +68,7 @@ class Injector:
     def count(self, thunk):
         """run thunk with counting only; returns number of library line events"""
         self.n, self.target, self.where, self.armed = 0, -1, None, True
+        self.writer_lines = []
         try:
             thunk()
         finally:
